@@ -40,6 +40,7 @@ func ScratchDir(prefix string) string {
 // dir == "" creates a fresh storage directory.
 func StartTransport(dir, pin string, snapshot bool, a *accessory.Accessory, as ...*accessory.Accessory) (*Acc, error) {
 	Quiet()
+	WatchServerPanics()
 	if dir == "" {
 		dir = ScratchDir("acc")
 	}
